@@ -11,7 +11,7 @@ variable {κ : Type} [DecidableEq κ]
 /-- a small target used by the satisfiability examples -/
 def mkT (l : Lbl) (outs : List OutDef) (checks : List (Path × Option Val)) (noCache : Bool) (deps : List Lbl := []) : Target where
   label := l
-  cmd := ⟨[], 0, outs, []⟩
+  cmd := ⟨[], 0, outs, [], false⟩
   inputs := []
   outs := outs
   deps := deps
